@@ -49,3 +49,8 @@ N("c04-n-vis-order", "C04", A, "CancelScope._parent_cancellation_is_visible_to_u
 # from seeded changes C01/c and C05/d (round 2)
 M("c04-classifier-not-total", "C04", A, "is_anyio_cancellation", "            exc.args\n            and isinstance(exc.args[0], str)\n            and exc.args[0].startswith", "            exc.args\n            and exc.args[0].startswith", ["R04-d"])
 M("c04-classifier-walks-any-exception", "C04", A, "is_anyio_cancellation", "        if isinstance(exc.__context__, CancelledError):\n            exc = exc.__context__\n            continue", "        if exc.__context__ is not None:\n            exc = exc.__context__\n            continue", ["R04-d"])
+
+# from seeded change C04/d (round 2)
+M("c04-fail-at-drops-shield", "C04", TASKS, "fail_at", "shield=shield", "shield=False", ["R04-g"])
+M("c04-move-on-after-drops-shield", "C04", TASKS, "move_on_after", "shield=shield", "shield=False", ["R04-g"])
+M("c04-public-scope-drops-shield", "C04", TASKS, "CancelScope.__new__", "create_cancel_scope(shield=shield, deadline=deadline)", "create_cancel_scope(deadline=deadline)", ["R04-g"])
